@@ -187,3 +187,111 @@ def gen_polygon(rnd, step=5, span=60, kinds=None):
                 out.reverse()
             return out
     return [(0, 0), (step, 0), (step, step), (0, step)]
+
+
+def gen_big_polygon(rnd, nmin=5, nmax=600):
+    """simple-by-construction polygons with many vertices: comb, rectilinear spiral, saw band, star, sliver.
+    Optionally decorated with collinear points and repeated vertices. Integer coordinates."""
+    kind = rnd.choice(['comb', 'spiral', 'saw', 'star', 'sliver', 'stair'])
+    target = rnd.randrange(nmin, nmax + 1)
+    ox, oy = rnd.randrange(-500, 500), rnd.randrange(-500, 500)
+    if kind == 'comb':
+        teeth = max(1, target // 4)
+        pitch, tw, th, base = rnd.randrange(4, 12), rnd.randrange(1, 4), rnd.randrange(5, 60), rnd.randrange(2, 6)
+        pts = [(0, 0)]
+        x = 0
+        for _ in range(teeth):
+            pts += [(x, base + th), (x + tw, base + th), (x + tw, base), (x + pitch, base)]
+            x += pitch
+        pts[-1] = (x, base)
+        pts += [(x, 0)]
+    elif kind == 'spiral':
+        turns = max(1, target // 8)
+        w = rnd.randrange(2, 6)          # arm width = gap
+        pts_out, pts_in = [], []
+        # rectilinear spiral as a thick polyline: outer boundary going in, inner boundary coming back
+        size = (4 * turns + 2) * w
+        x0, y0, x1, y1 = 0, 0, size, size
+        outer = []
+        for t in range(turns):
+            outer += [(x0, y0), (x1, y0), (x1, y1), (x0 + 2 * w, y1)]
+            x0 += 2 * w
+            y0 += 2 * w
+            x1 -= 2 * w
+            y1 -= 2 * w
+        # build by offsetting: inner path is the outer path shifted inwards by w
+        inner = []
+        x0, y0, x1, y1 = 0, 0, size, size
+        for t in range(turns):
+            inner += [(x0 + w, y0 + w), (x1 - w, y0 + w), (x1 - w, y1 - w), (x0 + 3 * w, y1 - w)]
+            x0 += 2 * w
+            y0 += 2 * w
+            x1 -= 2 * w
+            y1 -= 2 * w
+        # connect: outer forward, then inner backward; the start needs the left edge
+        pts = [(0, y_) for y_ in ()]
+        pts = outer + list(reversed(inner))
+        # close along the first arm's left side: outer[0]=(0,0) ... inner[0]=(w,w) -> need (0, size?) no: the first arm starts at
+        # the left edge; add the start cap explicitly
+        pts = [(0, 0)] + outer[1:] + list(reversed(inner[1:])) + [(w, w)]
+        # (0,0)->(size,0)... ->(w,w)->(0,0) closes with a diagonal; replace by a proper cap
+        pts = [(0, 0)] + outer[1:] + list(reversed(inner[1:])) + [(0, w)]
+    elif kind == 'saw':
+        n = max(2, target // 2)
+        amp, pitch, thick = rnd.randrange(3, 40), rnd.randrange(2, 9), rnd.randrange(2, 30)
+        top = [(i * pitch, amp if i % 2 else 0) for i in range(n)]
+        bot = [(i * pitch, (amp if i % 2 else 0) - thick) for i in range(n)]
+        pts = top + list(reversed(bot))
+    elif kind == 'star':
+        n = max(5, target)
+        a0 = rnd.uniform(0, 6.28)
+        pts = []
+        rr = rnd.randrange(200, 2000)
+        for j in range(n):
+            a = a0 + (j + rnd.uniform(-0.3, 0.3)) * 2 * math.pi / n
+            r_ = rr * rnd.choice([1.0, 0.55, 0.8, 0.97])
+            pts.append((int(round(r_ * math.cos(a))), int(round(r_ * math.sin(a)))))
+    elif kind == 'sliver':
+        L = rnd.randrange(500, 5000)
+        n = max(3, min(target, 40))
+        # thin wedge with extra points along its long sides
+        top = [(int(L * i / n), 1 + int(3 * i / n)) for i in range(n + 1)]
+        pts = [(0, 0)] + [(L, 0)] + list(reversed(top[1:]))
+    else:
+        n = max(2, target // 2)
+        x = y = 0
+        pts = [(0, 0)]
+        for _ in range(n):
+            x += rnd.randrange(1, 9)
+            pts.append((x, y))
+            y += rnd.randrange(1, 9)
+            pts.append((x, y))
+        pts.append((0, y))
+    out = []
+    for p in pts:
+        if not out or out[-1] != p:
+            out.append(p)
+    if len(out) > 1 and out[0] == out[-1]:
+        out.pop()
+    if kind == 'spiral' and not is_simple(out):
+        # fall back to a comb if the spiral construction degenerated
+        return gen_big_polygon(rnd, nmin, nmax) if rnd.random() < 0.9 else [(0, 0), (10, 0), (10, 10), (0, 10), (0, 5)]
+    # decorations: collinear points on edges and repeated vertices
+    deco = rnd.random()
+    if deco < 0.4:
+        dec = []
+        n = len(out)
+        for i in range(n):
+            a, b = out[i], out[i + 1 - n]
+            dec.append(a)
+            if rnd.random() < 0.15 and (a[0] == b[0] or a[1] == b[1]) and abs(a[0] - b[0]) + abs(a[1] - b[1]) >= 2:
+                dec.append(((a[0] + b[0]) // 2, (a[1] + b[1]) // 2))      # collinear (axis-parallel edge: exact)
+            if rnd.random() < 0.05:
+                dec.append(b)                                          # repeated vertex (b follows again)
+        out = []
+        for p in dec:
+            out.append(p)
+        # repeated vertices are legal input; keep consecutive duplicates
+    if rnd.random() < 0.5:
+        out = list(reversed(out))
+    return [(x + ox, y + oy) for x, y in out]
